@@ -423,7 +423,7 @@ static int SplitForceSize(char const* pArg, tForceSize* pForceSize) {
 
 static ShortInt DecodeAdr(tStrComp const* pArg, Word Mask, tAdrResult* pResult) {
     LongInt        HDisp, DispAcc;
-    Boolean        OK, NegFlag, NNegFlag;
+    Boolean        OK, NegFlag, NNegFlag, IdxOK;
     Byte           HReg;
     int            Offs;
     tRegEvalResult RegEvalResult;
@@ -522,6 +522,7 @@ static ShortInt DecodeAdr(tStrComp const* pArg, Word Mask, tAdrResult* pResult) 
 
             NNegFlag = NegFlag = False;
             DispAcc            = 0;
+            IdxOK              = True;
             pResult->Mode      = 0xff;
             do {
                 pSplitPos = QuotMultPos(Arg.str.p_str, "-+");
@@ -544,6 +545,8 @@ static ShortInt DecodeAdr(tStrComp const* pArg, Word Mask, tAdrResult* pResult) 
                             &Arg, !!(*Arg.str.p_str == '#'), Int32, &OK);
                     if (OK) {
                         DispAcc = NegFlag ? DispAcc - HDisp : DispAcc + HDisp;
+                    } else {
+                        IdxOK = False;
                     }
                 }
                 if (pSplitPos) {
@@ -551,7 +554,9 @@ static ShortInt DecodeAdr(tStrComp const* pArg, Word Mask, tAdrResult* pResult) 
                     Arg     = Remainder;
                 }
             } while (pSplitPos);
-            if (pResult->Mode == 0xff) {
+            if (!IdxOK) {
+                /* displacement did not evaluate: error already reported, no code */
+            } else if (pResult->Mode == 0xff) {
                 DecideAbsolute(DispAcc, Mask, pResult);
             } else if (DispAcc == 0) {
                 pResult->Type = ModIReg;
